@@ -397,5 +397,51 @@ example : (handleConn false exU ⟨100, false, {}⟩ exHandler 3
   rw [h]
   decide
 
+/-! ### C14 (consequence): what the handler is shown is what the client sent -/
+
+/-- The fields the library consumes while reading a request. -/
+def consumed (f : Header) : Bool :=
+  Multimap.isMatch (b!"content-type") f || Multimap.isMatch (b!"expect") f || Multimap.isMatch (b!"transfer-encoding") f
+
+/-- **The header list a handler sees is the list the client sent, in order, minus the consumed fields.**
+    For every well-formed head that fits the buffer and is accepted (whatever follows it on the
+    stream): the request handed on carries exactly the fields sent — names verbatim, values stripped
+    of the surrounding optional whitespace only, in the order sent, duplicates included — except
+    those named content-type, expect or transfer-encoding (ASCII-case-insensitively). -/
+theorem C14_request_headers (u : Bytes → Option Url) (h : Grammar.RawHead) (hw : h.wf = true)
+    (hfit : h.render.length ≤ cap) (X : Bytes) (m : ReqMeta)
+    (hok : (readRequestD false false u cap (h.render ++ X)).1 = .ok m) :
+    m.headers = (h.fields.map C02.exposed).filter (fun f => !consumed f) ∧
+    (readRequestD false false u cap (h.render ++ X)).2 = X := by
+  unfold readRequestD at hok ⊢
+  rw [readHeadD_wf u h hw hfit X] at hok ⊢
+  refine ⟨?_, rfl⟩
+  cases hu : u h.target with
+  | none => simp [hu, ofReadOut] at hok
+  | some url =>
+    simp only [hu, ofReadOut] at hok
+    cases hc : classify false ⟨h.method, url, h.fields.map C02.exposed⟩ with
+    | error e => simp [hc] at hok
+    | ok m' =>
+      simp only [hc, ReqOut.ok.injEq] at hok
+      subst hok
+      rw [C03.C03_classify_closed_form] at hc
+      have hrem : C03.remaining (h.fields.map C02.exposed) = (h.fields.map C02.exposed).filter (fun f => !consumed f) := by
+        unfold C03.remaining consumed
+        rw [List.filter_filter, List.filter_filter]
+        apply List.filter_congr
+        intro f _
+        cases Multimap.isMatch (b!"content-type") f <;> cases Multimap.isMatch (b!"expect") f <;>
+          cases Multimap.isMatch (b!"transfer-encoding") f <;> rfl
+      rw [← hrem]
+      split at hc
+      · cases hc
+      · split at hc
+        · cases hc
+        · split at hc
+          · cases hc
+          · simp only [Except.ok.injEq] at hc
+            rw [← hc]
+
 end C04P
 end Servlin
